@@ -1,5 +1,4 @@
-(* C16: for resolutions up to 52 bits the simple converter never exceeds full scale, for ALL finite
-   ranges and ALL non-NaN voltages.  (For 54..64 bits the statement is false: Proofs/AdcWitness.v.) *)
+(* C16: integers below 2^53 are binary64 numbers and bofZ converts them exactly (used by the SAR proofs). *)
 From Coq Require Import ZArith List Bool Reals Lia Lra.
 From Flocq Require Import Core BinarySingleNaN Ulp.
 From PyxelV Require Import Lib.B64 Model.Adc Proofs.AdcChain Proofs.AdcFloat.
@@ -40,102 +39,3 @@ Proof.
     + apply IZR_lt. exact H.
     + change (IZR (2 ^ 53)) with (bpow radix2 53). apply bpow_lt. lia.
 Qed.
-
-(* the rounding error of S * M is at most S / 2 when M < 2^52 *)
-Lemma round_scale_err (S : R) (bits : Z) :
-  0 < S -> format S -> (1 <= bits <= 52)%Z ->
-  rnd (S * IZR (2 ^ bits - 1)) <= S * IZR (2 ^ bits - 1) + S / 2.
-Proof.
-  intros PS FS Hb.
-  set (M := IZR (2 ^ bits - 1)).
-  assert (HM1 : 1 <= M).
-  { unfold M. apply IZR_le. assert (2 ^ 1 <= 2 ^ bits)%Z by (apply Z.pow_le_mono_r; lia). lia. }
-  assert (HM2 : M < bpow radix2 bits).
-  { unfold M. rewrite minus_IZR. rewrite (IZR_Zpower radix2) by lia. simpl (IZR 1). lra. }
-  set (z := S * M).
-  assert (Pz : 0 < z) by (unfold z; nra).
-  generalize (error_le_half_ulp radix2 fexp64 (fun x => negb (Z.even x)) z). fold z.
-  rewrite ulp_neq_0 by lra. unfold cexp.
-  intros Herr. apply Rabs_le_inv in Herr.
-  assert (Hulp : bpow radix2 (fexp64 (mag radix2 z)) <= S).
-  { assert (Hmag : (mag radix2 z <= mag radix2 S + bits)%Z).
-    { apply mag_le_bpow; [lra|]. rewrite Rabs_pos_eq by lra. rewrite bpow_plus. unfold z.
-      assert (S < bpow radix2 (mag radix2 S)).
-      { generalize (bpow_mag_gt radix2 S). rewrite Rabs_pos_eq; lra. }
-      assert (0 < bpow radix2 bits) by apply bpow_gt_0. nra. }
-    unfold SpecFloat.fexp, SpecFloat.emin. apply Z.max_case_strong; intros Hc.
-    - apply Rle_trans with (bpow radix2 (mag radix2 S - 1)).
-      + apply bpow_le. lia.
-      + generalize (bpow_mag_le radix2 S). rewrite Rabs_pos_eq by lra. intros T. apply T. lra.
-    - apply (generic_format_ge_bpow radix2 fexp64 (3 - 1024 - 53)); [|exact PS|exact FS].
-      intros e. unfold SpecFloat.fexp, SpecFloat.emin. lia. }
-  lra.
-Qed.
-
-Lemma trunc_le_of_lt (r : b64) (M : Z) : 0 <= B2R r -> B2R r < IZR M + 1 -> (Btrunc r <= M)%Z.
-Proof.
-  intros H0 H1. assert (Btrunc r < M + 1)%Z; [|lia]. apply lt_IZR. rewrite plus_IZR. simpl (IZR 1).
-  rewrite Btrunc_correct by reflexivity.
-  apply Rle_lt_trans with (B2R r); [|exact H1].
-  rewrite round_ZR_DN by (exact H0 || auto with typeclass_instances).
-  apply round_DN_pt. auto with typeclass_instances.
-Qed.
-
-Section Range.
-Variables (bits : Z) (vmin vmax : b64).
-Hypothesis Hbits : (1 <= bits <= 52)%Z.
-Hypothesis Fmin : is_finite vmin = true.
-Hypothesis Fmax : is_finite vmax = true.
-Hypothesis Hrange : B2R vmin < B2R vmax.
-
-Theorem simple_range w (x : b64) c :
-  bis_nan x = false ->
-  simple_code w bits vmin vmax x = Some c ->
-  (0 <= c <= 2 ^ bits - 1)%Z.
-Proof.
-  intros Nx Hc. split.
-  { unfold simple_code, cast_unsigned in Hc. destruct (btruncZ _) as [v|]; [|discriminate].
-    destruct (0 <=? v)%Z eqn:E; simpl in Hc; [|discriminate].
-    destruct (v <? 2 ^ w)%Z; [|discriminate]. inversion Hc; subst. now apply Z.leb_le. }
-  apply simple_code_inv in Hc. destruct Hc as [F ->].
-  assert (Hb0 : (0 <= bits)%Z) by lia.
-  assert (PM : (0 < 2 ^ bits)%Z) by (apply Z.pow_pos_nonneg; lia).
-  destruct (span_cases vmin vmax Fmin Fmax Hrange) as [[FS PS]|[s ES]].
-  2:{ rewrite (scaled_inf_span bits vmin vmax x s ES F). lia. }
-  set (S := bsub vmax vmin) in *.
-  pose proof (scaled_value bits vmin vmax Fmin Fmax Hrange x Nx FS PS F) as E. fold S in E.
-  assert (ES : B2R S = rnd (B2R vmax - B2R vmin)) by (apply bsub_finite_inv; assumption).
-  assert (EM : B2R (bofZ (2 ^ bits - 1)) = IZR (2 ^ bits - 1)).
-  { apply B2R_bofZ_exact. assert (2 ^ bits <= 2 ^ 52)%Z by (apply Z.pow_le_mono_r; lia).
-    assert (2 ^ 52 < 2 ^ 53)%Z by (apply Z.pow_lt_mono_r; lia). lia. }
-  rewrite EM in E.
-  set (M := IZR (2 ^ bits - 1)) in *.
-  assert (HM0 : 0 <= M) by (unfold M; apply IZR_le; lia).
-  set (cl := clampX (B2R vmin) (B2R vmax) x) in *.
-  assert (Hcl : B2R vmin <= cl <= B2R vmax) by (apply clampX_range; lra).
-  set (r1 := rnd (cl - B2R vmin)) in *.
-  assert (H1 : 0 <= r1 <= B2R S).
-  { split; [apply rnd_nonneg; lra|]. rewrite ES. apply rnd_le. lra. }
-  set (r2 := rnd (r1 * M)) in *.
-  assert (H2 : 0 <= r2 <= B2R S * M + B2R S / 2).
-  { split; [apply rnd_nonneg; nra|].
-    apply Rle_trans with (rnd (B2R S * M)); [apply rnd_le; nra|].
-    apply round_scale_err; [exact PS|apply generic_format_B2R|exact Hbits]. }
-  assert (H3 : 0 <= r2 / B2R S <= M + / 2).
-  { split.
-    - apply Rmult_le_pos; [lra|]. apply Rlt_le, Rinv_0_lt_compat, PS.
-    - apply Rmult_le_reg_r with (B2R S); [exact PS|]. unfold Rdiv. rewrite Rmult_assoc, Rinv_l by lra. lra. }
-  assert (FH : format (M + / 2)).
-  { replace (M + / 2) with (F2R (Float radix2 (2 * (2 ^ bits - 1) + 1) (-1))).
-    - apply format_F2R_small; [|lia].
-      assert (2 ^ bits <= 2 ^ 52)%Z by (apply Z.pow_le_mono_r; lia).
-      change (2 ^ 53)%Z with (2 * 2 ^ 52)%Z. lia.
-    - unfold F2R, M. cbn [Fnum Fexp]. generalize (2 ^ bits - 1)%Z. intros k.
-      rewrite plus_IZR, mult_IZR. change (bpow radix2 (-1)) with (/ 2). lra. }
-  apply trunc_le_of_lt; rewrite E.
-  - apply rnd_nonneg. tauto.
-  - fold M. apply Rle_lt_trans with (M + / 2); [|lra].
-    rewrite <- (round_generic radix2 fexp64 ZnearestE (M + / 2) FH). apply rnd_le. tauto.
-Qed.
-
-End Range.
